@@ -363,4 +363,4 @@ def c12d(ck, prog):
                    stop=[r"^ohkami::response::", r"<impl ohkami::response::Response>", r"^ohkami::request::headers::"],
                    boundary=[r"^serde_core::", r"^core::ops::function::Fn"])
     sinks = rr.run()
-    ck.floor("C12-d REACH", "sinks examined", len(sinks), 3)
+    ck.floor("C12-d REACH", "functions reached", len(rr.R.reached), 3)
